@@ -46,6 +46,11 @@ def env():
 
 def _load():
     warnings.simplefilter("ignore")
+    try:
+        from vlib.common import adversarial_warmup
+        adversarial_warmup()
+    except Exception:
+        pass
     import ofxtools.models as M
     from ofxtools.models.base import Aggregate, ElementList
     from ofxtools import Types
